@@ -59,22 +59,26 @@ def judge(ctx, log, label):
             # have parted ways: from there on only the clauses that speak about the real objects alone are judged (the others would compare apples and pears)
             steps = sorted(rej[i], key=lambda t: t[1])
             parted = min([l for cl, l in steps if any(c in STRUCT for c in cl)] or [10 ** 9])
-            hit = None
-            for cl, l in steps:
-                real = [c for c in cl if c not in STRUCT and (l < parted or c in MODEL_FREE)]
-                if real:
-                    hit = (real, l)
-                    break
-            if hit is None:
+            # the step at which they part is still judged in full (before it model and code agreed); two readings are reported, the first rejected
+            # step with it and the first one without it, so that a parting step explained by a known finding does not hide what the real halves do later
+            hits = []
+            for incl in (True, False):
+                for cl, l in steps:
+                    real = [c for c in cl if c not in STRUCT and (l < parted or (incl and l == parted) or c in MODEL_FREE)]
+                    if real:
+                        if (real, l) not in hits:
+                            hits.append((real, l))
+                        break
+            if not hits:
                 nstruct += 1
                 continue
-            real, l = hit
-            sb = stray_before(r["ev"], l)
-            cleared = any(e["op"] == "clear" for e in r["ev"][:l])      # a clear() leaves the watches of the dropped requests armed
-            for c in real:
-                ctx.reject(dict(clause=c, source=label, stray_bind_before=sb, clear_before=cleared), dict(steps=steps_of(r["ev"][:l])),
-                           "%s history, call %d (%s): %s%s" % (label, l, steps_of(r["ev"][l - 1:l])[0], c,
-                                " after a bind that answers no use-CC was delivered while a controller was pending" if sb else ""))
+            for real, l in hits:
+                sb = stray_before(r["ev"], l)
+                cleared = any(e["op"] == "clear" for e in r["ev"][:l])      # a clear() leaves the watches of the dropped requests armed
+                for c in real:
+                    ctx.reject(dict(clause=c, source=label, stray_bind_before=sb, clear_before=cleared), dict(steps=steps_of(r["ev"][:l])),
+                               "%s history, call %d (%s): %s%s" % (label, l, steps_of(r["ev"][l - 1:l])[0], c,
+                                    " after a bind that answers no use-CC was delivered while a controller was pending" if sb else ""))
     if nstruct:
         ctx.notes["structure_mismatches_" + label] = nstruct
     return recs
